@@ -223,6 +223,7 @@ structure State where
   procs : List Proc := []
   exitQueue : List (String × Bool) := []   -- exit events (full name, exit status 0?) not yet handled by the watcher
   beh : List (String × String) := []  -- fake process behaviour on SIGTERM: base name ↦ "exit:<code>"
+  execFails : List String := []       -- base names whose supervisor Exec fails (the process cannot be launched)
   curInv : Option (Nat × Nat × String) := none   -- the invocation HandleInvoke is working on
   rtDoneReg : Bool := false           -- doRuntimeDomainInit registered its runtime-done defer
   rtDeadlineFired : Bool := false
